@@ -16,7 +16,7 @@ def run(ctx):
     drv = ctx.build("c10")
     # MC + case enumeration in one exhaustive run
     cfg = "codec/MCHexPrefix" if not ctx.thorough else "codec/MCHexPrefixThorough"
-    res = ctx.model_check("codec/MCHexPrefix", cfg, tags=("CASE",), timeout=ctx.pick(300, 2400),
+    res = ctx.model_check("codec/MCHexPrefix", cfg, tags=("CASE",), timeout=ctx.pick(1800, 7200), workers=4,
                           coverage=ctx.thorough, name="MCHexPrefix")
     if ctx.thorough and res.zero_cov:
         ctx.notes.append("zero-coverage actions: %s" % res.zero_cov)
@@ -25,11 +25,11 @@ def run(ctx):
         raise InfraError("TLC printed only %d cases" % len(cases))
     cp = os.path.join(ctx.scratch, "cases.json")
     write_json(cp, cases)
-    ctx.drive(drv, ["-mode", "cases", "-in", cp], name="c10-cases")
+    ctx.drive(drv, ["-mode", "cases", "-in", cp], name="c10-cases", timeout=1800)
     # V: recorded calls on random long keys
     tp = os.path.join(ctx.scratch, "trace.ndjson")
-    s, _ = ctx.drive(drv, ["-mode", "record", "-trace", tp, "-n", ctx.pick(250, 6000)], name="c10-record")
-    ok, consumed, total, r = ctx.validate("codec/HexPrefixTrace", tp, ntraces=s["evaluations"], timeout=ctx.pick(300, 1800))
+    s, _ = ctx.drive(drv, ["-mode", "record", "-trace", tp, "-n", ctx.pick(500, 6000)], name="c10-record", timeout=1800)
+    ok, consumed, total, r = ctx.validate("codec/HexPrefixTrace", tp, ntraces=s["evaluations"], timeout=ctx.pick(1800, 7200))
     if not ok:
         ctx.reject_trace("codec/HexPrefixTrace", tp, consumed, r)
     return ctx.finish(rule="MC/R: all HEX keys of the bounded domain; V: seeded random keys up to 130 nibbles",
